@@ -1592,8 +1592,9 @@ class Engine(Executor):
         if sole:
             # K2: on a path through this loop, every value the generator yields is yielded by one of its iterations
             # (what an iteration yields is pinned down by the per-iteration post-conditions)
-            self.prove(st, T(not st.out), "K2", stmt, "nothing is yielded before the loop %r (declared the only yielder on its paths)" % key,
-                       clause="sole_yielder:entry")
+            # (inside the body of an enclosing loop the output so far is that loop's abstraction marker: nothing concrete)
+            self.prove(st, T(all(v == "havoc" for (v, _l) in st.out)), "K2", stmt,
+                       "nothing is yielded before the loop %r (declared the only yielder on its paths)" % key, clause="sole_yielder:entry")
             st = st.fork()
             st.out = []
             st.flags = dict(st.flags)
